@@ -133,7 +133,55 @@ fn judge_c04(ctx: &Ctx, svc: &varlink::VarlinkService, reqs: &[Req], depth: usiz
     ctx.case(if followed { Some(hash_of(&(d, transport))) } else { None });
 }
 
+/// C04: a oneway call to a method that upgrades the connection before it replies gets no reply
+/// frame either; what follows the request goes to the upgraded handler and its output is all
+/// the client sees.
+fn oneway_upgrade_cases(ctx: &Ctx) {
+    let svc = standard_service(SvcCfg { up: UpMode::Line, ..Default::default() });
+    for with_flag in [true, false] {
+        for npre in 0..3usize {
+            for payload in ["", "line one\n", "a\nb\nc\n"] {
+                let mut stream = Vec::new();
+                let mut expect = Vec::new();
+                for i in 0..npre {
+                    let r = Req::new(Kind::Echo, Flags { more: false, oneway: false }, &format!("pre{}", i));
+                    stream.extend(r.to_bytes());
+                    expect.push(format!("\"pre{}\"", i));
+                }
+                let mut up = json!({"method": "org.verif.t.Upgrade", "parameters": {"token": "UPGRADE-TOKEN"}, "oneway": true});
+                if with_flag {
+                    up["upgrade"] = json!(true);
+                }
+                stream.extend(serde_json::to_vec(&up).unwrap());
+                stream.push(0);
+                stream.extend_from_slice(payload.as_bytes());
+                let run = run_whole(&svc, &stream, None);
+                ctx.case(Some(hash_of(&("oneway-upgrade", with_flag, npre, payload))));
+                ctx.count("oneway_upgrade_streams", 1);
+                let out = String::from_utf8_lossy(&run.out).to_string();
+                let wit = |m: String| json!({"engine": "c04-oneway-upgrade", "stream": show(&stream), "reply_bytes": show(&run.out), "message": m});
+                if out.contains("UPGRADE-TOKEN") {
+                    ctx.violation("c04:reply-to-oneway:Upgrade", wit("the oneway call to the upgrading method drew a reply frame".into()));
+                    continue;
+                }
+                // everything written after the prefix replies is the upgraded handler's output
+                let after = match out.rfind('\0') {
+                    Some(p) => &out[p + 1..],
+                    None => &out[..],
+                };
+                let want: String = payload.split_inclusive('\n').map(|l| format!("ack:{}", l)).collect();
+                if run.out.iter().filter(|b| **b == 0).count() != npre || after != want {
+                    ctx.violation("c04:stream-misaligned:Upgrade", wit(format!("expected {} reply frame(s) followed by {:?}", npre, want)));
+                }
+            }
+        }
+    }
+}
+
 pub fn run_memory(ctx: &Ctx, which: &str) {
+    if which == "C04" {
+        oneway_upgrade_cases(ctx);
+    }
     let tier = ctx.tier;
     let syms = symbols(CORE_KINDS, true);
     let maxlen = tier.pick(3, 4);
